@@ -72,18 +72,21 @@ def command_pass(ctx):
         ends[o[2]] = ends.get(o[2], 0) + 1
         sp = srv.split3(b[1])
         mo = srv.split3(b[0]) if b[0] is not None else sp
-        if (o[0], o[1], o[2]) != (sp[0], sp[1], sp[2]) or (o[0], o[1], o[2]) != (mo[0], mo[1], mo[2]):
+        sp = (''.join(sp[0]), sp[1], sp[2])
+        mo = (''.join(mo[0]), mo[1], mo[2])
+        if (o[0], o[1], o[2]) != sp or (o[0], o[1], o[2]) != mo:
             bad.append(k)
     ctx.oblige('correspondence:session-with-commands', not bad, f'{len(bad)} of {len(cases)} scripts differ')
     if bad:
         k = bad[0]
-        nfi = srv.split3(both[k][1]) == (norm[k][0], norm[k][1], norm[k][2])
+        spk = srv.split3(both[k][1])
+        nfi = (''.join(spk[0]), spk[1], spk[2]) == (norm[k][0], norm[k][1], norm[k][2])
         ctx.violation('server.commands', 'session with command events differs from the reference: ' + srv.script_line(cases[k])[:300],
                       {'harness_line': srv.script_line(cases[k]), 'impl': impl[k], 'model': both[k][0], 'spec': both[k][1]}, no_failing_input=nfi)
     cut = sum(1 for c, o in zip(cases, norm) if o[2] == 'Shutdown' and '@block' in c[3])
     ok = ends.get('Shutdown', 0) >= 10 and ends.get('open', 0) >= 10 and ends.get('blocked', 0) >= 3 and cut >= 5 and ends.get('Io', 0) >= 5
     ctx.oblige('command-scripts-reach-expected-classes', ok, f'{ends} shutdown-after-block={cut}')
-    return {'command-scripts': len(cases), 'command-scripts:ended-Shutdown': ends.get('Shutdown', 0), 'command-scripts:left-blocked': ends.get('blocked', 0), 'command-scripts:ended-by-write-error': ends.get('Io', 0),
+    return {'command-scripts': len(cases), 'command-scripts:replies-taken-in-pieces-and-parked': sum(1 for c in cases if '@Wb' in c[3]), 'command-scripts:ended-Shutdown': ends.get('Shutdown', 0), 'command-scripts:left-blocked': ends.get('blocked', 0), 'command-scripts:ended-by-write-error': ends.get('Io', 0),
             'command-scripts:shutdown-in-a-script-with-blocked-writes': cut}
 
 
@@ -117,8 +120,66 @@ def rtu_task_pass(ctx):
     return {'rtu-task-scenarios': len(scs), 'rtu-task:waits-with-level-changes': n_wait_cmds, 'rtu-task:early-probes': n_probe, 'rtu-task:ended-by-shutdown': n_done}
 
 
+EXC_CODES = {'IllegalFunction': 1, 'IllegalDataAddress': 2, 'IllegalDataValue': 3, 'ServerDeviceFailure': 4, 'Acknowledge': 5,
+             'ServerDeviceBusy': 6, 'MemoryParityError': 8, 'GatewayPathUnavailable': 10, 'GatewayTargetDeviceFailedToRespond': 11}
+
+
+def ffi_server_pass(ctx):
+    """servers created through the C ABI (p5's harness `ffi_server`: rodbus_server_create_tcp with C write callbacks
+    returning a configured WriteResult, a Rust client over loopback): for every write kind x every exception the
+    callback can return (the nine named ones, raw codes through Unknown, success, callback not set) the reply must be the
+    reference server's reply for a handler that raises that exception: [fc | 0x80, code] / the echo."""
+    r = ctx.rng
+    kinds = {'coil': (5, 0), 'register': (6, 1), 'coils': (15, 2), 'registers': (16, 3)}
+    cases, coq = [], []
+    for kind, (fc, wk) in kinds.items():
+        outcomes = [('set', 0, n, 0, c) for n, c in EXC_CODES.items()]
+        outcomes += [('set', 0, 'Unknown', raw, raw) for raw in (0, 7, 9, 12, 0x80, 200, 255, r.randrange(256))]
+        outcomes += [('set', 1, 'Acknowledge', 0, None), ('unset', 0, 'Acknowledge', 0, 1)]
+        for cfg, succ, name, raw, code in outcomes:
+            start = r.randrange(0, 9)
+            if kind == 'coil':
+                values, pdu = '1', [5] + srv.be(start) + [0xFF, 0]
+            elif kind == 'register':
+                v = r.randrange(65536)
+                values, pdu = str(v), [6] + srv.be(start) + srv.be(v)
+            elif kind == 'coils':
+                values, pdu = '1,0,1', [15] + srv.be(start) + [0, 3, 1, 5]
+            else:
+                values, pdu = '7,8', [16] + srv.be(start) + [0, 2, 4, 0, 7, 0, 8]
+            cases.append(f'{kind} {cfg} {succ} {name} {raw} {start} {values}')
+            wex = () if code is None else ((wk, start, code),)
+            coq.append(('tcp', ((1, 1, 0, (), wex, (), (), (), ()),), None, ((1, 1, bytes(pdu)),)))
+    impl = ctx.harness('ffi_server', cases, timeout=900)
+    both = srv.run_coq(ctx, coq)
+    bad = []
+    for k, (c, i, b) in enumerate(zip(cases, impl, both)):
+        rep = srv.split3(b[1])[0]
+        y = bytes.fromhex(rep[0]) if rep else b''
+        want = ('EX', y[8]) if y and y[7] & 0x80 else ('OK', None)
+        m = i.split(' ')[0]
+        if m == 'ffi=OK':
+            got = ('OK', None)
+        elif m.startswith('ffi=EX:Unknown('):
+            got = ('EX', int(m[len('ffi=EX:Unknown('):-1]))
+        elif m.startswith('ffi=EX:') and m[7:] in EXC_CODES:
+            got = ('EX', EXC_CODES[m[7:]])
+        else:
+            got = ('?', m)
+        if got != want:
+            bad.append((k, got, want))
+    ctx.oblige('c-abi-server:write-reply-is-the-reference-reply-for-the-callback-result', not bad, f'{len(bad)} of {len(cases)}: {bad[:2]}')
+    for k, got, want in bad[:2]:
+        fc = coq[k][3][0][2][0]
+        ctx.violation(f'server.c-abi.write-reply.{cases[k].split()[0]}',
+                      f'C-ABI server, `{cases[k]}`: the client receives {got}, the reference server over a handler returning that result replies {want} '
+                      f'(PDU {"[%02X, %02X]" % (fc | 0x80, want[1]) if want[0] == "EX" else "echo"})',
+                      {'harness_line': 'ffi_server: ' + cases[k], 'impl': impl[k], 'spec': both[k][1], 'ffi_server_cases': [cases[k]]})
+    return {'c-abi-server-writes': len(cases)}
+
+
 def run(ctx):
-    if not srv.prepare(ctx, ['ReaderLoop.v']):
+    if not srv.prepare(ctx, ['ReaderLoop.v', 'WritePath.v', 'FfiTables.v']):
         return
     if ctx.replay and 'stream_cases' in ctx.replay:
         srv.replay_streams(ctx)
@@ -139,6 +200,7 @@ def run(ctx):
         extra['rtu-unknown-function-sessions'] = rtu_unknown_function(ctx)
         extra.update(command_pass(ctx))
         extra.update(rtu_task_pass(ctx))
+        extra.update(ffi_server_pass(ctx))
         r = ctx.rng
         n = 240 if ctx.quick() else 2400
         sc = [srv.gen_stream_case(r, 'tcp' if r.random() < 0.65 else 'rtu', auth=(srv.gen_auth(r) if r.random() < 0.1 else None)) for _ in range(n)]
